@@ -24,8 +24,53 @@ PROFILES = [
     ("nested-rep", dict(kind="text", regex=0.0, max_nts=2, depth=4)),
     ("bytes", dict(kind="bytes", max_nts=3)),
     ("bits-nullable", dict(kind="bits", allow_nullable_under_rep=True, max_nts=2)),
+    ("computed-rep", None),
     ("handwritten", None),
 ]
+
+# computed repetitions (bound taken from an earlier field of the tree) under every list shape: the parser rebuilds the
+# partial tree to evaluate the bound, walking up the parse table
+LIST_SHAPES = [
+    '<list> ::= <list> "," <item> | <item>\n',
+    '<list> ::= <item> "," <list> | <item>\n',
+    '<list> ::= <item> ("," <item>)*\n',
+    '<list> ::= <list> <item> | <item>\n',
+    '<list> ::= <list> "," <list> | <item>\n',
+    '<list> ::= <rest> <item> | <item>\n<rest> ::= <list> ","\n',
+    '<list> ::= (<item> ",")* <item>\n',
+    '<list> ::= <item>+\n',
+    '<list> ::= "(" <list> ")" | <list> "," <item> | <item>\n',
+]
+ITEM_SHAPES = [
+    '<item> ::= <len> <char>{int(<len>)}\n',
+    '<item> ::= <len> ":" <char>{int(<len>)}\n',
+    '<item> ::= <len> (<char> | "-"){int(<len>)}\n',
+    '<item> ::= <len> (<char> <char>?){int(<len>)}\n',
+    '<item> ::= <len> <char>{int(<len>), int(<len>) + 1}\n',
+    '<item> ::= "[" <len> <char>{int(<len>)} "]" | <char>\n',
+]
+
+
+def computed_rep_spec(rng):
+    return ("<start> ::= <list>\n" + rng.choice(LIST_SHAPES) + rng.choice(ITEM_SHAPES)
+            + '<len> ::= r"[0-9]"\n<char> ::= r"[a-z]"\n')
+
+
+def computed_rep_inputs(rng, n):
+    out = set()
+    while len(out) < n:
+        items = []
+        for _ in range(rng.randint(1, 4)):
+            k = rng.choice([0, 1, 1, 2, 2, 3])
+            body = "".join(rng.choice("abz-") for _ in range(k + rng.choice([0, 0, 0, 1, -1]) if k else 0))
+            items.append(rng.choice(["", "", "["]) + str(k) + rng.choice(["", "", ":"]) + body)
+        w = rng.choice([",", ",", ""]).join(items)
+        if rng.random() < 0.3 and w:
+            w = w[:rng.randrange(len(w))]
+        if rng.random() < 0.15:
+            w = "(" + w + ")"
+        out.add(w[:14])
+    return sorted(out)
 
 HANDWRITTEN = [
     "<start> ::= <a>+\n<a> ::= 'x'?\n",
@@ -59,9 +104,10 @@ def cases(tier, seed):
 
 
 def setup():
-    from vf.monitors import steps
+    from vf.monitors import steps, loops
 
     steps.install()
+    loops.install()
 
 
 def _features_from_fandango(f):
@@ -75,15 +121,15 @@ def run_case(c):
     from fandango import Fandango
     from fandango.language.grammar import ParsingMode
     from vf.gen import specgen, inputs
-    from vf.monitors import steps
+    from vf.monitors import steps, loops
     from vf.ref.grammar_model import RefGrammar
 
     rng = random.Random(c["seed"])
     stats = Counter()
     violations = []
     distinct = set()
-    if c["profile"] == "handwritten":
-        text = c["text"]
+    if c["profile"] in ("handwritten", "computed-rep"):
+        text = c["text"] if c["profile"] == "handwritten" else computed_rep_spec(random.Random(c["gseed"]))
         f = Fandango(text, use_stdlib=False)
         model = _features_from_fandango(f)
         names = list(model.rules)
@@ -107,8 +153,12 @@ def run_case(c):
     strings = inputs.all_strings(alpha, c["maxlen"])
     rng.shuffle(strings)
     strings = strings[:60]
+    if c["profile"] == "computed-rep":
+        strings = computed_rep_inputs(rng, 40) + strings[:8]
     nontrivial_grammar = any(e[0] == "rep" for e in model.all_exprs()) or "recursion" in specgen.syntactic_features(model.rules)
     diverged = 0
+    be0 = loops.L.backedges
+    loops.L.max_spin = 0
     for s in strings:
         try:
             inp = s.encode("latin-1") if binary else s
@@ -121,6 +171,7 @@ def run_case(c):
                     continue
                 st = rng.choice(names[1:])
             steps.reset(budget=BUDGET, track=True, input_len=len(inp))
+            loops.reset()
             stats["requests"] += 1
             distinct.add((repr(inp), kind))
             try:
@@ -156,13 +207,23 @@ def run_case(c):
                                            "mech": m_, "witness": w, "grammar_features": sorted(gfeats) + (["left-recursion"] if left_rec else [])})
                 # the parser object may be left mid-parse; a fresh one avoids knock-on effects
                 f = Fandango(text, use_stdlib=False)
+            except loops.TightLoop as e:
+                diverged += 1
+                stats["diverged_no_progress_loop"] += 1
+                w = e.witness
+                if len(violations) < 3:
+                    violations.append({"what": f"{kind} request on input {inp!r} from {st}: {w['function']} ({w['file']}:{w['line']}) took one loop back-edge "
+                                               f"{w['back_edge_taken']}x without admitting a state, returning or yielding "
+                                               f"({w['states_admitted_in_request']} states admitted in the whole request)",
+                                       "mech": None, "witness": w, "grammar_features": sorted(gfeats) + (["left-recursion"] if left_rec else [])})
+                f = Fandango(text, use_stdlib=False)
             except Exception as e:
                 stats["raised:" + type(e).__name__] += 1
             stats["max_admissions"] = max(stats["max_admissions"], steps.S.count)
         if diverged >= 6:
             break
     # fuzzing steps that parse internally (equality repair) under the same clock
-    if c["profile"] != "handwritten" and not diverged:
+    if c["profile"] not in ("handwritten", "computed-rep") and not diverged:
         ws = model.words("<start>", max_len=4, cap=10)
         if ws:
             conv = "bytes" if binary else "str"
@@ -183,6 +244,8 @@ def run_case(c):
                 except Exception as e:
                     stats["fuzz_raised:" + type(e).__name__] += 1
     stats["evaluations"] = stats["requests"]
+    stats["loop_back_edges_observed"] = loops.L.backedges - be0
+    stats["cases_max_no_progress_spin_over_10000"] = 1 if loops.L.max_spin > 10000 else 0
     for k in gfeats:
         stats["gfeat:" + k] = 1
     # max is not additive: report through a separate key the runner will sum; keep per-case max in sample
